@@ -285,9 +285,19 @@ func DecodeAlstSampleGroupEntry(name string, length uint32, sr bits.SliceReader)
 		entry.SampleOffset[i] = sr.ReadUint32()
 	}
 
+	if sr.AccError() != nil {
+		return nil, sr.AccError()
+	}
+	if uint64(length) < entry.Size() {
+		return nil, fmt.Errorf("alst: length %d is less than the %d bytes needed for roll_count %d",
+			length, entry.Size(), entry.RollCount)
+	}
 	remaining := int(length-uint32(entry.Size())) / 4
 	if remaining <= 0 {
 		return entry, sr.AccError()
+	}
+	if remaining > sr.NrRemainingBytes()/4 {
+		return nil, fmt.Errorf("alst: length %d exceeds the %d remaining bytes", length, sr.NrRemainingBytes())
 	}
 
 	// Optional
